@@ -271,7 +271,11 @@ def check_mutator(ctx, m, exempt, helpers):
                 # (to exhaustion: R12-replay-helper), i.e. the log of that field was replayed
                 hk = [v for v in ev.get("via", ()) if v in helpers][0]
                 roots = {x[1] for x in logged if x[0] == helpers[hk]["field"]}
-                if len(roots) == 1:
+                # .. provided EVERY path of the closure runs the helper (a replay under a condition is no replay)
+                cfn_ = prog.fn(ev["closure"])
+                cbs_ = [bi_ for bi_, t_ in cfn_.calls() if t_.callee() == hk] if cfn_ is not None else []
+                must = bool(cbs_) and all(any(cfn_.dominates(cb_, r_) for cb_ in cbs_) for r_ in cfn_.exits())
+                if len(roots) == 1 and must:
                     logged = frozenset(x for x in logged if x[0] != helpers[hk]["field"])
                 return (dirty, logged, pend)
             return state  # the replay helper's own stores
